@@ -28,7 +28,14 @@ t0 = time.time()
 env = dict(os.environ, VERIF_REPO=wt, VERIF_SEED=a.seed)
 env.setdefault("VERIF_ALT_TARGET", "/tmp/try-target")
 p = subprocess.run(["./check", a.pid, "--tier", a.tier], cwd="/verif", env=env, capture_output=True, text=True)
-lines = [l for l in p.stdout.splitlines() if l.startswith(("VIOLATION", "KNOWN-FINDING", "OK", "  "))]
+allp = p.stdout.splitlines()
+lines = []
+for i, l in enumerate(allp):
+    if l.startswith(("VIOLATION", "OK")):
+        lines.append(l)
+        if l.startswith("VIOLATION") and i + 1 < len(allp) and allp[i + 1].startswith("  "):
+            lines.append(allp[i + 1])
+lines.append("(known-finding lines: %d)" % sum(1 for l in allp if l.startswith("KNOWN-FINDING")))
 print("rc=%d wall=%.0fs" % (p.returncode, time.time() - t0))
 print("\n".join(lines[:12]))
 if p.returncode not in (0, 1) or not lines:
